@@ -198,6 +198,7 @@ def one_case(i, rec, w, real, wild, with_strace, with_ld):
         if not main:
             return res
     listed, unknown = resolve_ids(main[0][1], w, real)
+    listed = [x for x in listed if x != "S"]
     res["listed"] = listed
     for u in unknown:
         res["problems"].append((f"extra:{u}", f"lists {u}, which is not a file of the link"))
